@@ -3,6 +3,7 @@ schema x configuration matrix, build each one's runner (universal plan-driven re
 `vf.tree_hash()` so a change to /repo always regenerates and rebuilds."""
 import os
 import shutil
+import time
 import hashlib
 from concurrent.futures import ThreadPoolExecutor
 
@@ -57,12 +58,18 @@ def build_server(ctx, probe, cfg, allresolvers=True, race=False, extra_yml=""):
     for f in ("universal/universal.go", "universal/runner.go", "universal/gen.go", "gen/main.go"):
         h.update(open(os.path.join(vf.GO, f), "rb").read())
     h.update(repr(CONFIGS[cfg]).encode() + extra_yml.encode())
-    key = "%s_%s%s_%s_%s" % (probe, cfg, "_race" if race else "", th, h.hexdigest()[:8])
-    out = os.path.join(vf.CACHE, "srv_" + key)
+    gkey = "%s_%s_%s_%s" % (probe, cfg, th, h.hexdigest()[:8])
+    mode = "race" if race else "plain"
+    out = os.path.join(vf.CACHE, "srv_%s_%s_%s_%s_%s" % (mode, probe, cfg, th, h.hexdigest()[:8]))
     pkg = "%s_%s" % (probe, cfg)
     d = os.path.join(vf.GO, "genout", pkg)
     stamp = os.path.join(d, ".verif_stamp")
-    if os.path.exists(out) and os.path.exists(stamp) and open(stamp).read() == key:
+    fresh = os.path.exists(stamp) and open(stamp).read() == gkey
+    if os.path.exists(out) and fresh:
+        return out
+    if fresh:
+        # generated code is current; only this build flavour is missing
+        ctx.go_build("./genout/%s/cmd" % pkg, out, race=race)
         return out
     shutil.rmtree(d, ignore_errors=True)
     os.makedirs(d)
@@ -79,10 +86,12 @@ def build_server(ctx, probe, cfg, allresolvers=True, race=False, extra_yml=""):
     if rc != 0:
         raise RuntimeError("generation failed for %s/%s:\n%s%s" % (probe, cfg, so[-3000:], se[-3000:]))
     ctx.go_build("./genout/%s/cmd" % pkg, out, race=race)
-    open(stamp, "w").write(key)
+    open(stamp, "w").write(gkey)
     # drop stale binaries of other tree hashes for this (probe, cfg)
     for f in os.listdir(vf.CACHE):
-        if f.startswith("srv_%s_%s%s_" % (probe, cfg, "_race" if race else "")) and f != os.path.basename(out):
+        if (f.startswith("srv_plain_%s_%s_" % (probe, cfg)) or f.startswith("srv_race_%s_%s_" % (probe, cfg))) \
+                and not f.endswith("%s_%s" % (th, h.hexdigest()[:8])) \
+                and time.time() - os.path.getmtime(os.path.join(vf.CACHE, f)) > 1800:
             try:
                 os.remove(os.path.join(vf.CACHE, f))
             except OSError:
